@@ -22,6 +22,9 @@ CHECKS = {
     "C12": dict(cat="exploration", tech="history + model: every fit event of Model.fit replayed against the training-loop model (positives = accepted targets under the previous outputs, negatives = all decoys); metamorphic row/shuffle/column permutation and save/load",
                 text="Direct observation of what the estimator is fed in each iteration, for shuffled, unshuffled and row-permuted variants.",
                 note="start feature/direction read from the fitted model (C07 judges that choice)", ref="5/C12"),
+    "C04": dict(cat="exploration", tech="statistical monitor with simulated ground truth: FDP of accepted targets from result files over R replicates per (design, learner, folds) cell, 6-sigma decision rule; C02 history checker run underneath every replicate; small-table regime for the +1 correction",
+                text="Decides only statistically: a cell is violated iff mean FDP exceeds alpha by 0.25*alpha+0.005+6*SE; held iff within 3*SE; otherwise inconclusive (reported). Leaks are additionally reported with their exact witness from the estimator log.",
+                note="exchangeability holds by construction of the simulator; power against a leak is learner dependent", ref="5/C04"),
     "C05": dict(cat="exploration", tech="metamorphic monitor: baseline vs variants differing in one chunk-size constant / worker count with injected delays and 1e-6 GIL switch interval / Parquet row-group layout; MOKAPOT_* environment variants in fresh interpreters",
                 text="The identical table is run through read_pin -> brew -> assign_confidence in many configurations; scores and result files must agree (tie tolerant for the calibration-induced cross-fold ties); evidence reports threads actually observed.",
                 note="PEP column compared only when scores are bit-identical (third-party spline fit is ill-conditioned)", ref="5/C05"),
